@@ -1147,7 +1147,9 @@ impl Sim {
                     // keep "who sees an entity sees its parent" true
                     let hides_parent = !visible && (0..nslots).any(|ch| self.parents[ch] == Some(slot) && self.slots[ch].is_some() && self.visible_to(client, ch));
                     let believed_child = !visible && (0..nslots).any(|ch| self.sent_parents[ch] == Some(slot) && self.slots[ch].is_some() && self.visible_to(client, ch));
-                    let shows_child = visible && self.parents[slot].is_some_and(|p| !self.visible_to(client, p));
+                    // (also the parent the clients still BELIEVE in: a detach travels with the next tick, and a client that is
+                    // told to drop that parent in the same tick takes the re-shown child with it - finding F17a)
+                    let shows_child = visible && (self.parents[slot].is_some_and(|p| !self.visible_to(client, p)) || self.sent_parents[slot].is_some_and(|p| self.slots[p].is_some() && !self.visible_to(client, p)));
                     if hides_parent || believed_child || shows_child {
                         return self.exclude("child_visible_without_its_parent");
                     }
